@@ -11,7 +11,7 @@ Oracle: vf/gen/c07_bodies.classify_plan decides from (framing, size, thresholds,
 must be refused, must be streamed, must be buffered (or, for unknown-length bodies with stream threshold < limit < size,
 either of the first two).  Monitors:
   limit.error        refused message: flow.error set, error hook fired, no response hook, flow not live
-  limit.client       the client got mitmproxy's own 413 (request) / 502 (response) page (bare close only after '100 Continue')
+  limit.client       the client got mitmproxy's own 413 (request) / 502 (response) page, also after mitmproxy's interim '100 Continue'
   limit.not_forwarded no byte of the refused body reached the other side (independent RFC 9112 reader on the wire bytes)
   limit.exact        a message whose size does not exceed the limit is never refused for its size
   m3.bound           after EVERY step: len(request_body_buf|response_body_buf) <= limit + largest segment received so far
@@ -59,7 +59,7 @@ WORKERS = {"quick": 4, "thorough": 16}
 REQUIRED = [
     "limit.error", "limit.client", "limit.not_forwarded", "limit.exact", "m3.bound", "m3.streaming",
     "stream.engaged", "stream.input", "stream.exact", "stream.stored", "relay.buffered", "dir.request.abort", "dir.response.abort",
-    "dir.request.stream", "dir.response.stream", "bp.bound", "bp.exact", "bp.both_stalled.h1", "bp.both_stalled.h2", "early.response_head_before_request_end", "early.response_abort", "stream.exact.h2", "h2.backpressure_cases.h2-client", "h2.backpressure_cases.h2-server",
+    "dir.request.stream", "dir.response.stream", "te.compound_chunked", "bp.bound", "bp.exact", "bp.both_stalled.h1", "bp.both_stalled.h2", "early.response_head_before_request_end", "early.response_abort", "stream.exact.h2", "h2.backpressure_cases.h2-client", "h2.backpressure_cases.h2-server",
 ]
 TECHNIQUE = "runtime monitoring: sans-io exploration with a per-step buffer-length hook on the live layer graph + independent wire reader and threshold model"
 RULE = (
@@ -75,7 +75,7 @@ ASSUMPTIONS = [
     "addon stream callables that change the length are used only with chunked / close-delimited framing (DESIGN 3.3: framing-consistent addons)",
     "'known to exceed' = Content-Length at the head, or bytes in the body buffer; an unknown-length body that is already being streamed is not 'known' (nothing is buffered)",
     "'one received chunk' is bounded by the largest TCP segment delivered so far on that connection",
-    "after an interim '100 Continue' was relayed a bare connection close counts as the client's error (DESIGN 3.4)",
+    "'the client receives an error' = mitmproxy's own 413/502 response (also after its interim '100 Continue': the client is still waiting for a final response)",
     "HTTP/1 in both directions for the limit clauses; HTTP/2 on one side for the streaming clauses (no limit set there); plain http (no CONNECT/TLS)",
     "back-pressure leg: the HTTP/2 client announces 2^31-1 flow-control windows, so only the socket-level back-pressure (drain_writers) is under test; 'one received chunk' = one 65535-byte socket read",
     "HTTP/2 legs run with http2_ping_keepalive=0 (the driver completes wakeups at once)",
@@ -191,9 +191,9 @@ def rel(n, x):
 # one case
 # ---------------------------------------------------------------------------------------------------------------
 
-def run_case(ctx, opts):
+def run_case(ctx, opts, case=None):
     r = ctx.rng
-    case = g.gen_case(r, ctx.tier)
+    case = case or g.gen_case(r, ctx.tier)
     L, T, store = case["L"], case["T"], case["store"]
     opts.update(**case["options"])
     items = case["items"]
@@ -343,6 +343,7 @@ def run_case(ctx, opts):
         rec["hooks"].append((step, name))
         rec["snaps"][name] = snap
     up = {}  # tag -> (msg, conn)
+    up_last = {}  # conn -> tag of the last completely parsed request on it
     up_bad = []
     for conn in d.servers:
         data = bytes(d.out[conn])
@@ -353,11 +354,15 @@ def run_case(ctx, opts):
             m = TAG.search(msg["target"])
             if m:
                 up.setdefault(m.group(0), (msg, conn))
+                up_last[conn] = m.group(0)
         if status != "ok" or rest:
             up_bad.append((conn, status, rest if isinstance(rest, str) else bytes(rest)[:200], data))
+    d.c07_up_last = up_last
+    d.c07_items = items
     down_raw = bytes(d.out[d.client])
     dstatus, dmsgs, drest = ref.parse_responses(down_raw, [it["req"]["method"] for it in items], eof=True)
     down = {}
+    d.c07_last_down = dmsgs[-1] if dmsgs else None
     for msg in dmsgs:
         if 100 <= msg["status"] < 200:
             continue
@@ -420,7 +425,7 @@ def run_case(ctx, opts):
         tag = rq["tag"]
         qcls = g.classify_plan(qp, L, T)
         scls = g.classify_plan(sp, L, T)
-        sig_items.append(("req", qp["framing"], rel(qp["n"], L), rel(qp["n"], T), qp["action"] or "-", qcls, "resp", sp["framing"], rel(sp["n"], L), rel(sp["n"], T), sp["action"] or "-", scls, "expect" in rq["feats"], bool(it.get("early"))))
+        sig_items.append(("req", qp["framing"], rel(qp["n"], L), rel(qp["n"], T), qp["action"] or "-", qcls, "resp", sp["framing"], rel(sp["n"], L), rel(sp["n"], T), sp["action"] or "-", scls, "expect" in rq["feats"], bool(it.get("early")), g.te_compound(qp.get("te", b"chunked")), g.te_compound(sp.get("te", b"chunked"))))
         if not alive:
             ctx.count("skipped_after_abort")
             continue
@@ -517,9 +522,11 @@ def check_abort(ctx, d, wit, direction, it, rec, names, down_msgs, status, clien
     ctx.count("limit.client")
     own = [m for m in down_msgs if dict(m["headers"]).get("server", b"").startswith(b"mitmproxy")]
     if sent_100 and not own:
+        # mitmproxy answered 'Expect: 100-continue' itself; the refusal that follows must still be a final error response
         ctx.count("limit.client.close_after_100")
-        if not d.peers[d.client].got_eof:
-            ctx.violation("limit.client", wit(tag=tag, direction=direction, problem="no error page and connection left open after 100 Continue"))
+        closed = d.peers[d.client].got_eof
+        ctx.violation("limit.client", wit(tag=tag, direction=direction, problem="after the interim 100 Continue the client gets no error response, only " + ("a bare connection close" if closed else "silence (connection left open)"),
+                                          got=[(m['status'], m['raw_head'][:120]) for m in down_msgs]), "no-error-page-after-100-continue" if closed and not down_msgs else None)
     elif len(own) != 1 or own[0]["status"] != status or len(down_msgs) != 1:
         ctx.violation("limit.client", wit(tag=tag, direction=direction, problem=f"expected exactly one own {status} page", got=[(m['status'], m['raw_head'][:120]) for m in down_msgs]), classify("no-response", {"empty_piece_chunked": hist.get("response", False)}))
     ctx.count("limit.not_forwarded")
@@ -573,6 +580,31 @@ def check_relay(ctx, d, wit, direction, it, rec, cls, calls, observed, wire_stat
         kind = "wire.unparsed" if bad_wire else "no-response" if direction == "response" else "not-forwarded"
         ctx.count("stream.exact" if streamed_expected else "relay.buffered")
         ctx.violation(kind, wit(tag=tag, direction=direction, cls=cls, wire=[(b[1], b[2]) for b in bad_wire][:2], flow_hooks=[n for _, n in rec["hooks"]], calls=[(len(a), [len(p) for p in ps]) for a, ps in (calls or [])][:12], upstream=[bytes(d.out[c])[:500] for c in d.servers][:2]), classify(kind, info))
+        return False
+    # ---- framing as the peer sees it (strict reference reader): chunked stays chunked under every accepted Transfer-Encoding
+    # spelling, and nothing but the next message may follow the terminator
+    if plan["framing"] == "chunked":
+        ctx.count("te.chunked")
+        if g.te_compound(plan.get("te", b"chunked")):
+            ctx.count("te.compound_chunked")
+        sent_te = plan.get("te", b"chunked").strip().lower().replace(b" ", b"").replace(b"\t", b"")
+        got_te = b",".join(v for n_, v in msg["headers"] if n_ == "transfer-encoding").lower().replace(b" ", b"").replace(b"\t", b"")
+        if msg["framing"] != "chunked" or got_te != sent_te:
+            ctx.violation("te.framing", wit(tag=tag, direction=direction, te=plan.get("te"), peer_framing=msg["framing"], peer_te=got_te), classify("wire.unparsed", info))
+            return False
+    later_tags = [it_["req"]["tag"] for it_ in d.c07_items if it_["req"]["tag"] != tag]
+    if direction == "request":
+        tail = [b for b in bad_wire if d.c07_up_last.get(b[0]) == tag]
+        junk = [b for b in tail if b[1] == "reject" or not any(t_ in b[3] for t_ in later_tags)]
+    else:
+        junk = []
+        if bad_wire and observed and observed[-1] is msg and d.c07_last_down is msg:
+            st_, rest_ = wire_status
+            if st_ == "reject" or not any(t_ in (rest_ if isinstance(rest_, bytes) else b"") for t_ in later_tags):
+                junk = [("client", st_, rest_)]
+    if junk:
+        ctx.count("stream.exact" if streamed_expected else "relay.buffered")
+        ctx.violation("wire.trailing", wit(tag=tag, direction=direction, cls=cls, te=plan.get("te"), problem="bytes that are not the start of another message follow the message the peer parsed", wire=[(b[1], b[2]) for b in junk][:2]), classify("wire.unparsed", info))
         return False
     if streamed_expected:
         ctx.count("dir.%s.stream" % direction)
@@ -909,6 +941,9 @@ def run(ctx):
             if i < 2:
                 # every worker starts with the two decisive back-pressure shapes (both consumers stalled, HTTP/1 and HTTP/2)
                 res = ctx.guard(run_bp_case, ctx, opts, {"proto": "h1" if i == 0 else "h2", "stall": "both"}, what="c07 case")
+            elif i - 2 < len(g.TE_MATRIX) // ctx.nworkers + 1 and (i - 2) * ctx.nworkers + ctx.worker < len(g.TE_MATRIX):
+                # fixed matrix, split over the workers: Transfer-Encoding spelling x streaming mode x direction
+                res = ctx.guard(run_case, ctx, opts, g.gen_te_case(ctx.rng, (i - 2) * ctx.nworkers + ctx.worker), what="c07 case")
             else:
                 res = ctx.guard(run_bp_case if x < 0.03 else run_h2_case if x < 0.32 else run_case, ctx, opts, what="c07 case")
             if res is None:
